@@ -19,8 +19,33 @@ type leafErr struct{ id int }
 
 func (l *leafErr) Error() string { return fmt.Sprintf("leaf %d", l.id) }
 
+// Leaves come in every kind an application may put into a join: a plain error, an error that WRAPS another one
+// (Unwrap() error - a leaf of the join tree all the same: only joins, i.e. Unwrap() []error, are inner nodes), one whose
+// Unwrap returns nil, a zero-size error value (all such values may share one address) and a non-comparable one.
+type wrapLeaf struct {
+	id    int
+	inner error
+}
+
+func (l *wrapLeaf) Error() string { return fmt.Sprintf("wrapping leaf %d", l.id) }
+func (l *wrapLeaf) Unwrap() error { return l.inner }
+
+type sliceLeaf struct{ ids []int } // not comparable: a map keyed by error values panics on it
+
+func (l sliceLeaf) Error() string { return fmt.Sprintf("slice leaf %v", l.ids) }
+
 func (t jtree) build() error {
 	if t.K == "L" {
+		switch t.ID % 5 {
+		case 1:
+			return &wrapLeaf{t.ID, &leafErr{100000 + t.ID}} // yielding the inner error instead is a wrong answer
+		case 2:
+			return &wrapLeaf{t.ID, nil}
+		case 3:
+			return &wrapLeaf{t.ID, errors.Join(&leafErr{200000 + t.ID}, &leafErr{300000 + t.ID})}
+		case 4:
+			return sliceLeaf{[]int{t.ID}}
+		}
 		return &leafErr{t.ID}
 	}
 	kids := make([]error, len(t.C))
@@ -42,6 +67,12 @@ func (t jtree) nleaves() int {
 }
 
 func idOf(e error) int {
+	if l, ok := e.(*wrapLeaf); ok {
+		return l.id
+	}
+	if l, ok := e.(sliceLeaf); ok {
+		return l.ids[0]
+	}
 	if l, ok := e.(*leafErr); ok {
 		return l.id
 	}
